@@ -197,6 +197,94 @@ def corner_jobs(tier):
     return J
 
 
+def echo_seg(n, seed, period, alpha=8, noise=12, marks=()):
+    """Input class `echo` of the harness: a block over a small alphabet repeated with the given period (every position has a
+    candidate at exactly that distance, its 2- / 3-byte prefixes also occur nearby), copies deviating in single bytes."""
+    return dict(E.seg("echo", n, seed, period=period), alpha=alpha, noise=noise, marks=[dict(at=int(a), la=bool(la)) for a, la in marks])
+
+
+EDGE_FULL = lambda o: dict(dict(dict=65536, lc=3, lp=0, pb=2, mode="fast", nice=32, mf="hc4", depth=0), **o)
+
+
+def edge_jobs(tier, rnd):
+    """The history kept in front of read_pos is smallest right after a window move: keep_size_before - 1 + (move remainder
+    modulo the 64-byte alignment) bytes, and the encoder resumes either with a match-finder call (read_ahead = -1) or with the
+    rep probes of a position it has already looked at (read_ahead = 0). Two sub-families place candidates and reps at
+    distances around the dictionary size exactly there, in the modes that keep only dict_size + 1 bytes:
+      move   the dictionary size is chosen so that the remainder of the first move is r (the remainder only depends on
+             dict_size / 2 modulo 64: sizes off every alignment grid), the byte at the stall position is a literal taken with /
+             without look-ahead, the data repeats with period dict_size - 1 .. dict_size + 8;
+      flush  flush() at each of 64 consecutive fill levels inside the last keep_size_after bytes of the buffer (the window
+             then moves with pending positions at every remainder), the first byte after the flush is a literal whose rep
+             probes reach back one period.
+    Flush positions and marks are computed from the window constants OBSERVED on the code under test."""
+    quick = tier == "quick"
+    plans = []
+    rems = (0, 1, 63) if quick else tuple(range(64))
+    bases = (("lzma1", 4096), ("lzma2", 65536)) if quick else (("lzma1", 4096), ("lzma1", 20000), ("lzma2", 65536), ("lzma2", 1 << 17))
+    for writer, base in bases:
+        for r in rems:
+            for la in (True, False):
+                ra = 0 if la else -1
+                d = base + 2 * ((r - 2 - ra - base // 2) % 64) + rnd.choice([0, 1])
+                for mf in ("hc4", "bt4"):
+                    for dp in ((-1, 0, 1, 7) if quick else (-2, -1, 0, 1, 2, 3, 5, 7, 8)):
+                        plans.append(dict(kind="move", writer=writer, opt=EDGE_FULL(dict(dict=d, mf=mf, nice=rnd.choice([32, 64, 273]))), r=r, la=la, dp=dp))
+    for d in ((65536,) if quick else (65536, 65536 + 70, (1 << 17) + 1)):
+        for mf, nice in (("hc4", 32), ("bt4", 32)):
+            for k in range(64):
+                for dp in (0, -1):
+                    plans.append(dict(kind="flush", writer="lzma2", opt=EDGE_FULL(dict(dict=d, mf=mf, nice=nice)), k=k, dp=dp))
+    observe_windows([(p["opt"], p["writer"]) for p in plans])
+    J = []
+    for i, p in enumerate(plans):
+        o, w = p["opt"], p["writer"]
+        bs, ka = real_window(o, w)
+        kb = _OBSERVED_KB.get(json.dumps([o, w], sort_keys=True), o["dict"] + 1)
+        kw = dict(header=True, end_marker=True) if w == "lzma1" else {}
+        period = o["dict"] + p["dp"]
+        sd = rnd.getrandbits(30)
+        if p["kind"] == "move":
+            x = bs - ka                       # read_limit once the buffer is full: the encoder stalls at the first symbol boundary behind it
+            ra = 0 if p["la"] else -1
+            J.append(E.mk_job(f"edge-move-{w}-d{o['dict']}-{o['mf']}-p{p['dp']:+d}-{'la' if p['la'] else 'lit'}", writer=w, opt=o,
+                              input=[echo_seg(bs + 3000, sd, period, marks=[(x, p["la"])])], trace=1, decode=False,
+                              edge=dict(kind="move", rem=(x + 2 + ra - kb) % 64, kb=kb), **kw))
+        else:
+            t = bs - ka + 60 + p["k"]
+            J.append(E.mk_job(f"edge-flush-d{o['dict']}-{o['mf']}-p{p['dp']:+d}-k{p['k']}", writer=w, opt=o,
+                              input=[echo_seg(t + 3000, sd, period, marks=[(t, False)])], trace=0, decode=False,
+                              script=[dict(op="w", n=t), dict(op="f"), dict(op="w", n=3000)], edge=dict(kind="flush", level=t % 64), **kw))
+    return J
+
+
+def edge_evidence(ctx, jobs, results):
+    """Vacuity evidence of the edge family from the Fill events of its traced runs (no TLC run: the events are dropped afterwards)."""
+    want, got, levels = set(), set(), set()
+    pend_moves = 0
+    for j, r in zip(jobs, results):
+        e = j.get("edge")
+        if not e:
+            continue
+        if e["kind"] == "flush":
+            levels.add(e["level"])
+            pend_moves += r.get("cov", {}).get("moves_pending", 0)
+            continue
+        want.add(e["rem"])
+        for ev in r.get("events") or []:
+            if ev["ev"] == "Fill" and ev.get("mv", -1) > 0:
+                got.add((ev["rp"] - e["kb"] + 1) % 64 if ev["rp"] - e["kb"] + 1 < 64 else -1)
+                break
+        r["events"] = []
+    ctx.cov["edge_move_remainders_planned"] = sorted(want)
+    ctx.cov["edge_move_remainders_realised"] = sorted(got)
+    ctx.cov["edge_flush_fill_levels_mod64"] = len(levels)
+    ctx.cov["edge_flush_moves_with_pending"] = pend_moves
+    if want and (0 not in got or len(levels) < 64 or pend_moves == 0):
+        raise ToolError(f"vacuous edge family: first-move remainders realised {sorted(got)} (planned {sorted(want)}), "
+                        f"{len(levels)} flush fill levels, {pend_moves} moves with pending positions")
+
+
 def bias_jobs(tier, rnd):
     """Renormalisation of the 31-bit positions after a few KiB (lz_pos bias), and a second time (ageing)."""
     quick = tier == "quick"
@@ -276,6 +364,7 @@ def straddle_job(jid, writer, opt, bufsize, keep_after, kw):
 
 
 _OBSERVED = {}
+_OBSERVED_KB = {}      # keep_size_before of the same probes
 
 
 def observe_windows(specs):
@@ -293,6 +382,7 @@ def observe_windows(specs):
         ev = [e for e in r.get("events", []) if e["ev"] == "New"]
         if ev:
             _OBSERVED[k] = (ev[0]["bs"], ev[0]["ka"])
+            _OBSERVED_KB[k] = ev[0]["kb"]
 
 
 def real_window(opt, writer="lzma2"):
@@ -562,7 +652,9 @@ def run_plan(ctx, pid, tier):
             jobs.append(j)
             meta.append(("tlc-tour", {}))
     if fast_dev:
-        pass
+        if pid == "C15" and os.environ.get("C1_DEV_EDGE") == "1":      # development aid: the edge family alone
+            for j in edge_jobs(tier, random.Random(rnd.getrandbits(30))):
+                jobs.append(j); meta.append(("edge", {}))
     elif pid == "C01":
         for j in corner_jobs(tier):
             jobs.append(j); meta.append(("corner", {}))
@@ -584,10 +676,12 @@ def run_plan(ctx, pid, tier):
             jobs.append(j); meta.append(("grid", {}))
         for j in bias_jobs(tier, rnd):
             jobs.append(j); meta.append(("bias", {}))
+        for j in edge_jobs(tier, random.Random(rnd.getrandbits(30))):
+            jobs.append(j); meta.append(("edge", {}))
     # trace validation costs one TLC run per distinct vector of real constants: cap the number of traced vectors
     cap, seen = (20 if quick else 160), set()
     for j in jobs:
-        if j.get("trace") and j["writer"] in ("lzma2", "lzma1"):
+        if j.get("trace") and j["writer"] in ("lzma2", "lzma1") and not j.get("edge"):
             k = json.dumps(E.job_consts(j), sort_keys=True)
             if k not in seen and len(seen) >= cap and not j.get("bias"):
                 j["trace"] = 0
@@ -601,6 +695,7 @@ def run_plan(ctx, pid, tier):
         return run_c13(ctx, tier, rnd, pool, design)
     results = E.run_jobs(jobs)
     log(f"[impl] {len(jobs)} encoder histories run in {time.time()-t0:.1f}s")
+    edge_evidence(ctx, jobs, results)
     # second build without `optimization`: the renormalisation runs reach the scalar path there
     noopt_jobs, noopt_res = [], []
     if pid in ("C01", "C15"):
@@ -1013,6 +1108,26 @@ def c13_mt(ctx, tier, rnd, classes):
                         scns.append({"id": f"c13-{fam}-{unit}-p{len(part)}x{part[0]}-w{workers}-{s}", "family": fam, "workers": workers, "unit_len": unit,
                                      "calls": calls, "data_class": cls, "seed": 4242 + unit, "policy": pol})
                         keys.append((fam, unit, cls))
+    # unit size configured below / at / above the dictionary size (below it the constructors raise it to the dictionary size),
+    # crossed with partitions whose pieces lie below the configured size, between it and the effective size, above the
+    # effective size: the unit boundaries - and the bytes - may depend on input, options and unit size only
+    from checks import mtwriter
+    n_cl = 2 if quick else 12
+    ucfgs = [(u, d) for (u, d) in mtwriter.UNIT_CONFIGS if u < d] + ([] if quick else [(u, d) for (u, d) in mtwriter.UNIT_CONFIGS if u >= d])
+    for fam in ("lzma2_writer", "lzip_writer"):
+        for ci, (raw, dsz) in enumerate(ucfgs):
+            eff = max(raw, dsz)
+            cls = ("text", "mixed", "random")[ci % 3] if not quick else ("text", "mixed")[ci % 2]
+            for workers in (1, 2, 3, 4):
+                for s in range(n_cl if workers > 1 else 1):
+                    def pol():
+                        return {"kind": "random", "seed": rnd.getrandbits(40)} if s % 2 == 0 else {"kind": "pct", "seed": rnd.getrandbits(40), "depth": 1 + s % 3}
+                    new = mtwriter.partition_scns(fam, raw, dsz, eff * 3 - 700, workers, pol, f"c13-{fam}-{raw}of{dsz}-w{workers}-{s}", rnd,
+                                                  data_class=cls, seed=4242 + raw)
+                    scns += new
+                    keys += [(fam, f"{raw}/dict{dsz}", cls)] * len(new)
+    if not any(s.get("dict_size", 0) > s["unit_len"] for s in scns):
+        raise ToolError("vacuous C13 MT stage: no configuration with the unit size below the dictionary size")
     t0 = time.time()
     res = mtlib.run_scenarios(scns)
     log(f"[impl] {len(scns)} MT writer executions on the deterministic runtime in {time.time()-t0:.1f}s")
